@@ -79,7 +79,7 @@ func main() {
 		},
 		Post: func(c *ev.Check, outs []*run.Outcome) {
 			for _, k := range []string{"agree.raw", "agree.client", "agree.bits_set", "agree.banned_slots", "agree.servers_in_reply", "agree.migration_in_reply",
-				"refusal.raw", "refusal.client", "agree.burst", "agree.client_relayed", "stale_round.judged", "stale_round.unchanged", "rotation.injected_at.sync.ready", "rotation.injected_at.sync.afterCopy", "rotation.under_load", "rotation.reply_is_state_before", "rotation.reply_is_state_after", "tamper.bitflip", "tamper.truncate", "tamper.extend_adjusted", "tamper.resign_otherkey",
+				"refusal.raw", "refusal.client", "agree.burst", "agree.client_relayed", "rejected.large_list_tail", "stale_round.judged", "stale_round.unchanged", "rotation.injected_at.sync.ready", "rotation.injected_at.sync.afterCopy", "rotation.under_load", "rotation.reply_is_state_before", "rotation.reply_is_state_after", "tamper.bitflip", "tamper.truncate", "tamper.extend_adjusted", "tamper.resign_otherkey",
 				"accepted.time_within", "rejected.time_outside", "rejected.devkey", "rejected.entry_sig", "rejected.mig_outer", "rejected.mig_inner",
 				"fullround.rejected_unchanged", "fullround.accepted", "states.offset_0", "states.offset_2016", "states.offset_4032"} {
 				c.Require(k, 1)
@@ -1387,6 +1387,44 @@ func (s *st) variants(genuine []byte, full bool) (vs []variant, sample []variant
 	add("valid.devkey_other_device", 1, mustReject, rebuilt(s.Key.Priv, func(r *refenc.SyncReply) { r.DevKey = other.Pub }))
 	add("valid.devkey_other_device", 2, mustReject, rebuilt(s.Key.Priv, func(r *refenc.SyncReply) { r.DevKey[31] ^= 1 }))
 
+	// long lists: one entry without the required signature among the last
+	// three of 65..67 entries (and a genuine long list as the control)
+	inner := s.GCA
+	if s.mig != nil {
+		inner = s.G2
+	}
+	long := make([]refenc.AuthServer, 67)
+	for i := range long {
+		long[i] = refenc.AuthServer{Pub: refenc.GenKey(rng).Pub, Banned: true, Location: fmt.Sprintf("127.77.%d.%d", rng.Intn(256), 1+rng.Intn(254)), HTTP: uint16(rng.Intn(65536)), TCP: uint16(rng.Intn(65536)), UDP: uint16(rng.Intn(65536))}.Signed(inner.Priv)
+	}
+	withList := func(list []refenc.AuthServer) func([]byte) []byte {
+		return rebuilt(s.Key.Priv, func(r *refenc.SyncReply) {
+			r.Servers = list
+			if s.mig != nil {
+				r.MigSig = refenc.Migration{Equipment: r.DevKey, NewGCA: r.NewGCA, NewID: r.NewID, Servers: list}.Signed(s.GCA.Priv).Sig
+			}
+		})
+	}
+	for _, size := range []int{65, 66, 67} {
+		for fromEnd := 0; fromEnd < 3; fromEnd++ {
+			list := append([]refenc.AuthServer(nil), long[:size]...)
+			f := &list[size-1-fromEnd]
+			switch (size + fromEnd) % 3 {
+			case 0:
+				f.Sig = [64]byte{}
+			case 1:
+				*f = f.Signed(other.Priv)
+			default:
+				f.Banned = !f.Banned // genuine signature, other content
+			}
+			add("valid.large_list_tail_unsigned", size*10+fromEnd, mustReject, withList(list))
+			if size == 67 && fromEnd == 2 {
+				pick("entry")
+			}
+		}
+		add("valid.large_list_genuine", size, mustAccept, withList(append([]refenc.AuthServer(nil), long[:size]...)))
+	}
+
 	if s.mig == nil {
 		// server list: entries lacking the GCA's signature
 		signers := []refenc.Key{s.Key, s.A.Key, other, s.G2, s.Temp}
@@ -2072,6 +2110,8 @@ func child(b run.Batch, r *ev.Result) {
 			r.Count(counts[v.class], 1)
 		case len(v.class) > 15 && v.class[:15] == "resign_otherkey":
 			r.Count("tamper.resign_otherkey", 1)
+		case v.class == "valid.large_list_tail_unsigned":
+			r.Count("rejected.large_list_tail", 1)
 		case len(v.class) >= 15 && (v.class[:15] == "valid.entry_sig" || v.class[:15] == "valid.entry_dup"):
 			r.Count("rejected.entry_sig", 1)
 		case len(v.class) >= 15 && v.class[:15] == "valid.mig_outer":
